@@ -17,7 +17,7 @@ C_FUNCS = [
     ("kastore.c", "kastore_read_file"),
     ("tables.c", "check_offsets"),
 ]
-BOUNDED = [{"name": "prefixes_and_structural_bytes", "module": "standins.c10_corrupt", "timeout": 1200}]
+BOUNDED = [{"name": "prefixes_and_structural_bytes", "module": "standins.c10_corrupt", "timeout": 1800, "asan": True}]
 UNVERIFIED = ["kastore_read_item (lazy read path, fseek)", "kastore_read, kastore_openf", "kastore_find_item/compare_items",
               "tables.c read_table_cols, read_table_ragged_cols, tsk_table_collection_read_format_data, load_indexes",
               "tsk_treeseq_loadf (gate = C02)"]
